@@ -181,14 +181,15 @@ def grid_secondary(ab, rng, rnd):
         depth, depth_ho = rnd.choice([(1, 0), (1, 0), (2, 0)])
         wavelet = wavelet_ho = rnd.choice(list(range(7)))
     elif ab["qm"] == "custom_only":
-        depth, depth_ho = 1, rnd.choice([1, 2])
-        wavelet = rnd.choice(list(range(7)))
-        wavelet_ho = rnd.choice([x for x in range(7) if x != wavelet])
+        # a transform for which vc2_data_tables defines no default matrix (most pairs of different wavelets)
+        depth = 1
+        pairs = [(a, b, d) for a in range(7) for b in range(7) for d in (1, 2) if a != b and (a, b, depth, d) not in t.QUANTISATION_MATRICES]
+        wavelet, wavelet_ho, depth_ho = rnd.choice(pairs)
     else:
         depth, depth_ho = 1, rnd.choice([1, 2])
         wavelet = wavelet_ho = rnd.choice(list(range(7)))
-    if ab["qm"] != "custom_only" and (wavelet, wavelet_ho, depth, depth_ho) not in t.QUANTISATION_MATRICES:
-        raise RuntimeError("no default quantisation matrix for %r" % ((wavelet, wavelet_ho, depth, depth_ho),))
+    if (ab["qm"] != "custom_only") != ((wavelet, wavelet_ho, depth, depth_ho) in t.QUANTISATION_MATRICES):
+        raise RuntimeError("quantisation-matrix class %s cannot be instantiated with %r" % (ab["qm"], (wavelet, wavelet_ho, depth, depth_ho)))
     nsl = slices[0] * slices[1]
     per_slice = rnd.choice([150, 200, 300]) if ab["slice"] == "large" else rnd.choice([12, 16, 24, 40])
     return {
